@@ -250,7 +250,15 @@ def _other_states():
         d = rnp.random.default_rng(3).random((3, 2, 2)) > 0.4
         return trimesh.voxel.VoxelGrid(E.BinaryRunLengthEncoding.from_dense(d.reshape(-1)).reshape(d.shape))
 
-    return [("Box", box_p), ("Cylinder(sections=7)", cyl_p), ("Sphere(subdivisions=1)", sphere_p), ("Capsule(sections=9)", capsule_p), ("Extrusion", extrusion_p), ("Box+overrides", prim_overridden), ("Path2D", path2d), ("Path3D", path3d), ("PointCloud", cloud), ("Scene(nested)", scene), ("VoxelGrid(dense)", voxel), ("VoxelGrid(rle)", voxel_rle)]
+    def voxel_transposed():
+        # a lazily transposed encoding (non-dense base) with a 3-cycle permutation
+        from trimesh.voxel import encoding as E
+
+        d = rnp.random.default_rng(4).random((2, 3, 4)) > 0.5
+        base = E.SparseBinaryEncoding(rnp.column_stack(rnp.nonzero(d)), shape=d.shape)
+        return trimesh.voxel.VoxelGrid(base.transpose((1, 2, 0)), transform=tf.scale_and_translate(0.5, [1, 2, 3]))
+
+    return [("VoxelGrid(sparse, transposed 1-2-0)", voxel_transposed), ("Box", box_p), ("Cylinder(sections=7)", cyl_p), ("Sphere(subdivisions=1)", sphere_p), ("Capsule(sections=9)", capsule_p), ("Extrusion", extrusion_p), ("Box+overrides", prim_overridden), ("Path2D", path2d), ("Path3D", path3d), ("PointCloud", cloud), ("Scene(nested)", scene), ("VoxelGrid(dense)", voxel), ("VoxelGrid(rle)", voxel_rle)]
 
 
 def _routes(obj):
